@@ -189,7 +189,6 @@ func (m *mustCallAnalysis) analyse(f *ssa.Function) map[string]bool {
 	return res
 }
 
-
 // joined: every path from the go statement to a return of f passes a
 // (*sync.WaitGroup).Wait call, i.e. the goroutine's effects are complete
 // before f returns (the goroutines in this code base signal with wg.Done).
